@@ -224,7 +224,7 @@ def build_cases(thorough):
     for ex in FDINFO_EXTRA:
         if ex:
             cases.append(("table", {"3": ["reg", 5, 0o100002], "4": ["litdel", 9, 0o102001]}, ex))
-    nmax = 4 if thorough else 3
+    nmax = 5 if thorough else 3
     kinds = KINDS if thorough else ["reg", "del", "delx", "litdel", "sock", "pipe", "chr", "rel", "dir"]
     for n in range(0, nmax + 1):
         for combo in itertools.product(kinds, repeat=n):
